@@ -8,6 +8,7 @@ test per mode, and the geometry accessors."""
 from __future__ import annotations
 
 import contextlib
+import functools
 import operator
 import os
 import warnings
@@ -258,6 +259,7 @@ def run(ctx):
     integer_typed_params(ctx)
     numeric_policies(ctx)
     inexact_complement_coding(ctx)
+    caller_supplied_operator(ctx)
 
 
 # ---------------------------------------------------------------- geometry accessors at the edge of their argument range
@@ -1067,3 +1069,325 @@ def inexact_complement_coding(ctx):
                           dict(rep, label=int(h.labels_[-1]), n_categories=len(h.W)))
             cov.hit(f"icc:history:{mode}:tie-rejected")
             cov.traces += 1
+
+
+# ---------------------------------------------------------------- the binary match test with a comparison supplied by the caller
+
+
+def _strict_with_margin(a, b, margin=0.0):
+    """a caller-defined strict vigilance test (MT0-like, with a safety margin)"""
+    return a > b + margin
+
+
+def _inclusive_with_margin(a, b, margin=0.0):
+    return a >= b + margin
+
+
+class VigilanceTest:
+    """a comparison that is an object with state (its slack), not a function"""
+
+    def __init__(self, slack, strict):
+        self.slack, self.strict = slack, strict
+
+    def __call__(self, a, b):
+        return a > b - self.slack if self.strict else a >= b - self.slack
+
+    def accepts(self, a, b):
+        return self(a, b)
+
+
+def comparison_family(r):
+    """(name, the callable handed to match_criterion_bin, the same relation written out independently).  The two
+    singletons the library's own search passes are in the list as controls; everything else is what a custom host or
+    user code may pass for the public parameter `op`: numpy ufuncs, fresh lambdas, functools.partial objects (also of
+    operator.gt itself), the reversed comparisons, callable objects and bound methods."""
+    mg = r.choice([2.0 ** -5, 2.0 ** -8, 0.05, -2.0 ** -5])
+    sl = r.choice([0.0, 2.0 ** -6, 0.01])
+    return [
+        ("operator.ge", operator.ge, lambda a, b: a >= b),
+        ("operator.gt", operator.gt, lambda a, b: a > b),
+        ("operator.lt", operator.lt, lambda a, b: a < b),
+        ("operator.le", operator.le, lambda a, b: a <= b),
+        ("np.greater", np.greater, lambda a, b: a > b),
+        ("np.greater_equal", np.greater_equal, lambda a, b: a >= b),
+        ("np.less", np.less, lambda a, b: a < b),
+        ("np.less_equal", np.less_equal, lambda a, b: a <= b),
+        ("lambda-strict", lambda M, rho: M > rho, lambda a, b: a > b),
+        ("lambda-inclusive", lambda M, rho: M >= rho, lambda a, b: a >= b),
+        ("partial(operator.gt)", functools.partial(operator.gt), lambda a, b: a > b),
+        ("partial-strict-margin=0", functools.partial(_strict_with_margin, margin=0.0), lambda a, b: a > b + 0.0),
+        (f"partial-strict-margin={mg!r}", functools.partial(_strict_with_margin, margin=mg), lambda a, b: a > b + mg),
+        (f"partial-inclusive-margin={mg!r}", functools.partial(_inclusive_with_margin, margin=mg), lambda a, b: a >= b + mg),
+        (f"callable-object-strict-slack={sl!r}", VigilanceTest(sl, True), lambda a, b: a > b - sl),
+        (f"bound-method-inclusive-slack={sl!r}", VigilanceTest(sl, False).accepts, lambda a, b: a >= b - sl),
+    ], [mg, -sl]
+
+
+def op_family_name(name):
+    """stable part of an operator's name (signatures must not depend on the drawn margin)"""
+    return name.split("=")[0]
+
+
+def thresholds_for(M, rho0, ops_margin=()):
+    """the configured vigilance, the boundary rho == M, one ulp either side of it, and the boundaries of the tests that
+    carry a margin / slack (rho + margin == M up to rounding)"""
+    out = [("configured", rho0)]
+    Mf = float(M)
+    if np.isfinite(Mf):
+        out += [("rho==M", Mf), ("rho-one-ulp-above-M", float(np.nextafter(Mf, np.inf))), ("rho-one-ulp-below-M", float(np.nextafter(Mf, -np.inf)))]
+        for mg in ops_margin:
+            if mg != 0.0:
+                out.append(("rho==M-margin", Mf - mg))
+    return out
+
+
+def caller_supplied_operator(ctx):
+    """Oracle (implementation alone): `op` is a public parameter of match_criterion_bin -- the comparison of the selected
+    mode is handed over by the caller, the library's own search being only one caller.  For EVERY comparison callable
+    the binary match test is op(M, rho) with M the value of the class's own match_criterion on the same arguments
+    (BayesianART thresholds the other way round: op(rho, M)), also at the boundary rho == M and one ulp either side;
+    the flag recorded in the returned cache is the returned flag, the recorded match value is M; arguments and model
+    are left alone.  Through the delegating hosts that forward `op`: TopoART(base).match_criterion_bin is the base
+    module's test; FusionART.match_criterion_bin is the conjunction over the channels that are not skipped of
+    op(M_k, rho_k), M_k / rho_k the k-th module's own match value / vigilance."""
+    from copy import deepcopy
+    cov = ctx.cov
+
+    def battery(tag, host, cls_of, call, M_of, x, w, p_base, inverted, rep0, snap_of):
+        """every operator x every threshold on one (sample, weight); `call(params, op, how)` runs the implementation's
+        binary test, `M_of(params)` its own match value"""
+        ops, margins = comparison_family(rep0["_r"])
+        rep0 = {k: v for k, v in rep0.items() if k != "_r"}
+        try:
+            with quiet():
+                M = M_of(p_base)
+        except ZeroDivisionError:
+            cov.hit(f"op:{tag}:zerodiv-outside-domain")
+            return
+        x0, w0 = x.copy(), w.copy()
+        snap0 = full_snapshot(snap_of)
+        for rel, rho_t in thresholds_for(M, p_base["rho"], margins):
+            pt = dict(p_base, rho=rho_t)
+            for k_op, (name, op, ref) in enumerate(ops):
+                want = bool(ref(rho_t, M)) if inverted else bool(ref(M, rho_t))
+                how = ["keyword", "positional"][k_op % 2]
+                rep = dict(rep0, x=x0, w=w0, rho=rho_t, threshold=rel, operator=name, passed=how, M=float(M), expected=want)
+                fam = op_family_name(name)
+                try:
+                    with quiet():
+                        got, out_cache = call(pt, op, how)
+                except Exception as e:
+                    ctx.issue("violation", f"{cls_of}.match_criterion_bin:caller-supplied-operator:{fam}:{exc_enum(e)}",
+                              f"match_criterion_bin(..., op={name}) raised {e!r} (M = {float(M)!r}, rho = {rho_t!r})", rep)
+                    continue
+                if bool(got) != want:
+                    ctx.issue("violation", f"{cls_of}.match_criterion_bin:caller-supplied-operator:{fam}",
+                              f"{host}: M = {float(M)!r}, rho = {rho_t!r} ({rel}), op = {name} (passed {how}): op({'rho, M' if inverted else 'M, rho'}) is {want}, "
+                              f"match_criterion_bin returned {bool(got)}", dict(rep, returned=bool(got)))
+                elif isinstance(out_cache, dict) and "match_criterion_bin" in out_cache and bool(out_cache["match_criterion_bin"]) != want:
+                    ctx.issue("violation", f"{cls_of}.match_criterion_bin:caller-supplied-operator:{fam}:cached-flag",
+                              f"{host}: the flag recorded in the returned cache is {bool(out_cache['match_criterion_bin'])}, the test op = {name} on M = {float(M)!r}, "
+                              f"rho = {rho_t!r} gives {want}", dict(rep, returned=bool(got)))
+                if isinstance(out_cache, dict) and "match_criterion" in out_cache:
+                    mc = out_cache["match_criterion"]
+                    if not (mc == M or (mc != mc and M != M)):
+                        ctx.issue("violation", f"{cls_of}.match_criterion_bin:cached-match-value",
+                                  f"{host}: the returned cache records the match value {mc!r}; match_criterion returns {M!r}", rep)
+                cov.hit(f"op:{tag}:{fam}")
+                cov.hit(f"op:{fam}:{rel}:{'accepts' if want else 'rejects'}")
+            cov.hit(f"op:{tag}:{rel}")
+        if not (np.array_equal(x, x0) and np.array_equal(w, w0)):
+            ctx.issue("violation", f"{cls_of}.match_criterion_bin:mutates-arguments", "x or w changed by the binary match test", dict(rep0, x=x0, w=w0))
+        if not eq_snap(full_snapshot(snap_of), snap0):
+            ctx.issue("violation", f"{cls_of}.match_criterion_bin:mutates-model", "model state changed by the binary match test", dict(rep0, x=x0, w=w0))
+        cov.case(("op", tag, rep0.get("spec"), x0.tolist(), w0.tolist()), True)
+
+    # ---- every elementary class
+    for i in range(ctx.scale(64, 1600)):
+        r = gen.rng_for(ctx.seed, "C03-op", i)
+        cls = specs.ELEM[i % 8]
+        d = r.randint(1, 3)
+        spec = specs.elem_spec(r, cls, d)
+        X = specs.elem_data(r, cls, r.randint(4, 10), d, floats=r.random() < 0.4 and cls != "ART1")
+        m = make(spec)
+        try:
+            with quiet():
+                m.fit(X, match_tracking=r.choice(MODES))
+        except Exception as e:
+            cov.hit(f"op:train-raised:{cls}:{exc_enum(e)}")
+            continue
+        p = m.params
+        for j in range(3):
+            if j == 2 and cls in ("FuzzyART", "ART1", "ART2A", "HypersphereART"):
+                w, origin = arbitrary_weight(r, cls, d, m), "arbitrary"
+            else:
+                w, origin = np.array(m.W[r.randrange(len(m.W))], dtype=float), "reached"
+            x = X[r.randrange(len(X))].copy() if j != 1 else specs.elem_data(r, cls, 1, d)[0]
+            try:
+                with quiet():
+                    _, cache0 = m.category_choice(x, w, params=p)
+            except ZeroDivisionError:
+                cov.hit(f"op:{cls}:zerodiv-outside-domain")
+                continue
+            fresh = (lambda c=cache0: None if c is None else dict(c))
+
+            def call(pt, op, how, m=m, x=x, w=w, fresh=fresh):
+                if how == "keyword":
+                    return m.match_criterion_bin(x, w, params=pt, cache=fresh(), op=op)
+                return m.match_criterion_bin(x, w, pt, fresh(), op)
+
+            def M_of(pt, m=m, x=x, w=w, fresh=fresh):
+                return m.match_criterion(x, w, params=pt, cache=fresh())[0]
+
+            battery(cls, cls, cls, call, M_of, x, w, dict(p), cls == "BayesianART",
+                    {"_r": r, "class": cls, "spec": spec, "X": X, "weight": origin}, m)
+            # op omitted: the documented default is the inclusive test M >= rho
+            try:
+                with quiet():
+                    M = M_of(p)
+                    got, _ = m.match_criterion_bin(x, w, params=p, cache=fresh())
+                want = bool(p["rho"] >= M) if cls == "BayesianART" else bool(M >= p["rho"])
+                if bool(got) != want:
+                    ctx.issue("violation", f"{cls}.match_criterion_bin:op-omitted",
+                              f"M = {float(M)!r}, rho = {p['rho']!r}: the default operator is >=, expected {want}, returned {bool(got)}",
+                              {"class": cls, "spec": spec, "X": X, "x": x, "w": w})
+                cov.hit(f"op:{cls}:omitted")
+            except ZeroDivisionError:
+                pass
+
+    # ---- TopoART forwards (i, w, params, cache, op) to its base module
+    for i in range(ctx.scale(16, 400)):
+        r = gen.rng_for(ctx.seed, "C03-op-topo", i)
+        base = specs.HAS_BETA[i % 4]
+        d = r.randint(1, 3)
+        bs = specs.elem_spec(r, base, d)
+        tau = r.randint(2, 6)
+        spec = {"cls": "TopoART", "base_module": bs, "beta_lower": r.choice([b for b in [0.0, 0.25, 0.5, 1.0] if b <= bs["beta"]]),
+                "tau": tau, "phi": r.randint(1, tau)}
+        X = specs.elem_data(r, base, r.randint(4, 10), d)
+        try:
+            t = make(spec)
+            with quiet():
+                t.fit(X)
+        except Exception as e:
+            cov.hit(f"op:train-raised:TopoART[{base}]:{exc_enum(e)}")
+            continue
+        if not len(t.W):
+            cov.hit(f"op:TopoART[{base}]:no-category-left")
+            continue
+        p = dict(t.params)
+        for j in range(2):
+            w = np.array(t.W[r.randrange(len(t.W))], dtype=float)
+            x = X[r.randrange(len(X))].copy()
+            try:
+                with quiet():
+                    _, cache0 = t.category_choice(x, w, params=p)
+            except ZeroDivisionError:
+                continue
+            fresh = (lambda c=cache0: None if c is None else dict(c))
+
+            def call(pt, op, how, t=t, x=x, w=w, fresh=fresh):
+                if how == "keyword":
+                    return t.match_criterion_bin(x, w, params=pt, cache=fresh(), op=op)
+                return t.match_criterion_bin(x, w, pt, fresh(), op)
+
+            def M_of(pt, t=t, x=x, w=w, fresh=fresh):
+                # the base class's own match value on the same arguments
+                return t.base_module.match_criterion(x, w, params=pt, cache=fresh())[0]
+
+            battery(f"TopoART[{base}]", f"TopoART({base})", f"TopoART[{base}]", call, M_of, x, w, p, False,
+                    {"_r": r, "class": "TopoART", "spec": spec, "X": X, "weight": "reached"}, t)
+
+    # ---- FusionART: conjunction over the channels of the modules' own tests, op forwarded to each
+    for i in range(ctx.scale(32, 800)):
+        r = gen.rng_for(ctx.seed, "C03-op-fusion", i)
+        k = r.randint(1, 3)
+        pool = ["FuzzyART", "FuzzyART", "ART2A"] if r.random() < 0.5 else list(specs.ELEM)
+        chans = [r.choice(pool) for _ in range(k)]
+        ds = [r.randint(1, 2) for _ in range(k)]
+        sp = [specs.elem_spec(r, c, dd) for c, dd in zip(chans, ds)]
+        gam = {1: [1.0], 2: r.choice([[0.5, 0.5], [0.25, 0.75]]), 3: r.choice([[0.5, 0.25, 0.25], [0.25, 0.25, 0.5]])}[k]
+        dims = [specs.width(c, dd) for c, dd in zip(chans, ds)]
+        spec = {"cls": "FusionART", "modules": sp, "gamma_values": gam, "channel_dims": dims}
+        n = r.randint(4, 8)
+        X = np.hstack([specs.elem_data(r, c, n, dd) for c, dd in zip(chans, ds)])
+        try:
+            fa = make(spec)
+            with quiet():
+                fa.fit(X)
+        except Exception as e:
+            cov.hit(f"op:train-raised:FusionART:{exc_enum(e)}")
+            continue
+        if fa.n_clusters == 0:
+            continue
+        offs = np.concatenate([[0], np.cumsum(dims)]).astype(int)
+        for j in range(2):
+            cat = r.randrange(fa.n_clusters)
+            x = X[r.randrange(len(X))].copy()
+            h = deepcopy(fa)
+            # the boundary inside one channel: that module's vigilance moved onto its own match value (set_params on
+            # the module, the public way to re-configure it), when validate_params accepts the number
+            tie_k = r.randrange(k) if j == 1 else None
+            skip = [r.randrange(k)] if (k > 1 and r.random() < 0.4) else []
+            try:
+                with quiet():
+                    w = np.asarray(h.W[cat], dtype=float)
+                    _, cache0 = h.category_choice(x, w, h.params, skip_channels=skip)
+                    Ms = [None if c in skip else
+                          h.modules[c].match_criterion(x[offs[c]:offs[c + 1]], np.asarray(h.modules[c].W[cat], dtype=float),
+                                                       h.modules[c].params, dict(cache0[c]) if cache0[c] is not None else None)[0]
+                          for c in range(k)]
+            except ZeroDivisionError:
+                cov.hit("op:FusionART:zerodiv-outside-domain")
+                continue
+            sit = "configured"
+            if tie_k is not None and tie_k not in skip and np.isfinite(float(Ms[tie_k])):
+                try:
+                    with quiet():
+                        h.modules[tie_k].set_params(rho=float(Ms[tie_k]))
+                    sit = f"rho==M-in-channel:{chans[tie_k]}"
+                except (AssertionError, ValueError, TypeError):
+                    cov.hit(f"op:FusionART:tie-rejected-by-validate_params:{chans[tie_k]}")
+            rhos = [h.modules[c].params["rho"] for c in range(k)]
+            x0, w0 = x.copy(), w.copy()
+            snap0 = full_snapshot(h)
+            for k_op, (name, op, ref) in enumerate(comparison_family(r)[0]):
+                want = all(bool(ref(rhos[c], Ms[c])) if chans[c] == "BayesianART" else bool(ref(Ms[c], rhos[c]))
+                           for c in range(k) if c not in skip)
+                fam = op_family_name(name)
+                rep = {"class": "FusionART", "spec": spec, "X": X, "x": x0, "w": w0, "category": cat, "channels": chans, "skip_channels": skip,
+                       "module_rho": [float(v) for v in rhos], "module_M": [None if v is None else float(v) for v in Ms],
+                       "situation": sit, "operator": name, "expected": want}
+                cache = {c: (dict(v) if isinstance(v, dict) else v) for c, v in cache0.items()}
+                try:
+                    with quiet():
+                        if k_op % 2:
+                            got, out = h.match_criterion_bin(x, w, h.params, cache, op, skip_channels=skip)
+                        else:
+                            got, out = h.match_criterion_bin(x, w, params=h.params, cache=cache, op=op, skip_channels=skip)
+                except Exception as e:
+                    ctx.issue("violation", f"FusionART.match_criterion_bin:caller-supplied-operator:{fam}:{exc_enum(e)}",
+                              f"match_criterion_bin(..., op={name}) raised {e!r}", rep)
+                    continue
+                if bool(got) != want:
+                    ctx.issue("violation", f"FusionART.match_criterion_bin:caller-supplied-operator:{fam}",
+                              f"channels {chans} (skipped {skip}): match values {rep['module_M']}, vigilances {rep['module_rho']} ({sit}), op = {name}: "
+                              f"the conjunction of op(M_k, rho_k) is {want}, match_criterion_bin returned {bool(got)}", dict(rep, returned=bool(got)))
+                else:
+                    for c in range(k):
+                        if c in skip:
+                            continue
+                        wk = bool(ref(rhos[c], Ms[c])) if chans[c] == "BayesianART" else bool(ref(Ms[c], rhos[c]))
+                        if bool(out[c].get("match_criterion_bin")) != wk:
+                            ctx.issue("violation", f"FusionART.match_criterion_bin:caller-supplied-operator:{fam}:cached-flag",
+                                      f"channel {c} ({chans[c]}): the flag recorded in the returned cache is {out[c].get('match_criterion_bin')!r}; "
+                                      f"op = {name} on M = {float(Ms[c])!r}, rho = {float(rhos[c])!r} gives {wk}", dict(rep, channel=c))
+                cov.hit(f"op:FusionART:{fam}")
+                cov.hit(f"op:FusionART:{'accepts' if want else 'rejects'}")
+            cov.hit(f"op:FusionART:{sit.split(':')[0]}")
+            cov.hit(f"op:FusionART:channels={k}:{'one-skipped' if skip else 'none-skipped'}")
+            if not (np.array_equal(x, x0) and np.array_equal(w, w0)):
+                ctx.issue("violation", "FusionART.match_criterion_bin:mutates-arguments", "x or w changed by the binary match test", rep)
+            if not eq_snap(full_snapshot(h), snap0):
+                ctx.issue("violation", "FusionART.match_criterion_bin:mutates-model", "model state changed by the binary match test", rep)
+            cov.case(("op", "FusionART", spec, x0.tolist(), w0.tolist(), sit, tuple(skip)), True)
